@@ -105,6 +105,11 @@ func replayTestDirs(verif, prop string) map[string][]string {
 }
 
 func runReplayTests(verif, repo, prop string, model map[string]string) *replayRun {
+	return runOverlayTests(verif, repo, prop, model, "TestVerifReplay")
+}
+
+// runOverlayTests runs the tests of the property's test directory whose names match pattern.
+func runOverlayTests(verif, repo, prop string, model map[string]string, pattern string) *replayRun {
 	rr := &replayRun{}
 	dirs := replayTestDirs(verif, prop)
 	if len(dirs) == 0 {
@@ -151,7 +156,7 @@ func runReplayTests(verif, repo, prop string, model map[string]string) *replayRu
 		ov, _ := json.Marshal(map[string]interface{}{"Replace": repl})
 		ovf := filepath.Join(scratch, "ov-"+sanitizeFile(d)+".json")
 		os.WriteFile(ovf, ov, 0o644)
-		args := []string{"test", "-overlay", ovf, "-vet=off", "-count=1", "-timeout", "300s", "-run", "TestVerifReplay", "./" + d}
+		args := []string{"test", "-overlay", ovf, "-vet=off", "-count=1", "-timeout", "300s", "-run", pattern, "./" + d}
 		cmd := exec.Command("go", args...)
 		cmd.Dir = repo
 		cmd.Env = append(os.Environ(), "GOFLAGS=-mod=mod", "GOPROXY=off", "GOSUMDB=off", "GOTOOLCHAIN=local", "VERIF_MODEL="+string(mj))
@@ -250,6 +255,20 @@ func usesHelpers(files []string) bool {
 	for _, f := range files {
 		if b, err := os.ReadFile(f); err == nil && strings.Contains(string(b), "vrNew(") || strings.Contains(string(b), "vrServer(") || strings.Contains(string(b), "vrFreshNode(") {
 			return true
+		}
+	}
+	return false
+}
+
+// Bounded stand-ins: tests named TestVerifBounded* in the property's test
+// directory check, on every run, code that is not under contract. They are
+// labelled bounded in the evidence and never counted as proved.
+func hasBounded(verif, prop string) bool {
+	for _, fs := range replayTestDirs(verif, prop) {
+		for _, f := range fs {
+			if b, err := os.ReadFile(f); err == nil && strings.Contains(string(b), "func TestVerifBounded") {
+				return true
+			}
 		}
 	}
 	return false
